@@ -306,7 +306,7 @@ def gen_alb(r, k, T):
     cfg = cv_block(0, width=1.0)
     B = ["alb {", "  name a", "  colvars v0", "  centers %r" % V.dyadic(r, 0.5, 2, bits=2),
          "  updateFrequency %d" % r.choice([4, 6, 8]), "  forceRange 2.0", "}"]
-    return {"fam": "alb", "tags": ["alb"], "sigtags": [], "collapse": "all", "natoms": 1, "setup": ["temperature 300.0"], "config": cfg + B, "it0": 0,
+    return {"fam": "alb", "tags": ["alb"], "sigtags": [], "natoms": 1, "setup": ["temperature 300.0"], "config": cfg + B, "it0": 0,
             "pos": walk(r, T, 1, lo=0.5, hi=4, bits=3)}
 
 
@@ -491,7 +491,7 @@ def gen_opes(r, k, T):
     for i in range(nv):
         cfg += cv_block(i, width=1.0, lower=-4.0, upper=4.0)
     pace = r.choice([1, 2, 3])
-    rf = r.choice([1, 2, 4])
+    rf = r.choice([0, 1, 2, 4])     # 0: no restart schedule of the module (the engine decides when states are written)
     B = ["opes_metad {", "  name o", "  colvars " + " ".join("v%d" % i for i in range(nv)),
          "  newHillFrequency %d" % pace, "  barrier %r" % r.choice([5.0, 10.0]),
          "  gaussianSigma " + vec([r.choice([0.25, 0.5]) for _ in range(nv)]), "  outputEnergy on"]
@@ -520,7 +520,7 @@ def gen_opes(r, k, T):
         B += ["  pmf on", "  pmfColvars v0", "  pmfHistoryFrequency %d" % r.choice([0, 4])]
         tags.append("pmf")
     B.append("}")
-    return {"fam": "opes", "tags": tags, "sigtags": [t for t in ("adaptiveSigma", "pmf") if t in tags], "collapse": None, "natoms": nv, "setup": ["temperature 300.0", "restartfreq %d" % rf],
+    return {"fam": "opes", "tags": tags, "sigtags": [], "collapse": None, "natoms": nv, "setup": ["temperature 300.0", "restartfreq %d" % rf],
             "config": cfg + B, "it0": 0, "pos": walk(r, T, nv, lo=-3.0, hi=3.0, bits=3), "restartfreq": rf,
             "needs_prefix": True}
 
